@@ -172,3 +172,48 @@ def a_unit_axial_grid_has_one_centimetre_cells(n: int):
         loc = g[0, 0, k]
         assert (loc.i, loc.j, loc.k) == (0, 0, k) and loc.grid is g
         assert eq(loc.getLocalCoordinates()[2], k + 0.5)
+
+
+@lemma(gen={"pitch": (0.05, 40.0), "i": (-40, 40), "j": (-40, 40), "k": (0, 4)})
+def locator_distance_to_each_neighbour_is_one_pitch(i: int, j: int, k: int, pitch: float, cornersUp: bool):
+    """the same geometric fact through the locator OBJECTS: IndexLocation.distanceTo between the locator of a cell
+    and the locator of each of its six listed neighbours is the pitch, the distance to itself is zero and the distance is
+    symmetric (distanceTo goes through getGlobalCoordinates of both locators)"""
+    assume(pitch > 0)
+    g = hexgrid(pitch, cornersUp)
+    loc = g[i, j, k]
+    d0 = loc.distanceTo(loc)
+    assert eq(d0 * d0, 0.0)
+    for n in g.getNeighboringCellIndices(i, j, k):
+        other = g[n]
+        d = loc.distanceTo(other)
+        assert d >= 0
+        assert eq(d * d, pitch * pitch), "a listed neighbour is one pitch away"
+        d2 = other.distanceTo(loc)
+        assert eq(d2 * d2, d * d), "distance is symmetric"
+
+
+Composite = repo("armi.reactor.composites:Composite")
+CoordinateLocation = repo("armi.reactor.grids.locations:CoordinateLocation")
+
+
+@lemma(gen={"pitch": (0.05, 40.0), "i": (-40, 40), "j": (-40, 40), "k": (0, 4)})
+def locator_distance_is_taken_between_global_positions(i: int, j: int, k: int, pitch: float, cornersUp: bool, rx: float, ry: float, rz: float):
+    """the grid is anchored to an object that sits at the free coordinate (rx, ry, rz) of its parent: both locators are
+    displaced by the same vector, so the distance to each listed neighbour is still one pitch - for every displacement
+    (a distance mixing a global with a local position would depend on rx, ry, rz)"""
+    assume(pitch > 0)
+    reactor = new(Composite, parent=None, spatialLocator=None)
+    core = new(Composite, parent=reactor)
+    core.spatialLocator = CoordinateLocation(rx, ry, rz, None)
+    g = hexgrid(pitch, cornersUp)
+    g.armiObject = core
+    g._isAxialOnly = False
+    loc = g[i, j, k]
+    c = loc.getGlobalCoordinates()
+    lc = loc.getLocalCoordinates()
+    assert eq(c[0], lc[0] + rx) and eq(c[1], lc[1] + ry) and eq(c[2], lc[2] + rz), "global = local + the anchor's position"
+    for n in g.getNeighboringCellIndices(i, j, k):
+        other = g[n]
+        d = loc.distanceTo(other)
+        assert d >= 0 and eq(d * d, pitch * pitch), "one pitch away whatever the displacement of the grid"
